@@ -34,7 +34,12 @@ SatisfierCorrect == Done => (Satisfiable(pol, av) = Holds(pol, av))
 \* sorting: idempotent, and the same for every reordering of commutative children at every depth
 SortLaws == Done => /\ Sorted(Sorted(pol)) = Sorted(pol)
                     /\ \A q \in Perms(pol) : Sorted(q) = Sorted(pol)
-Hh == IF av.nest THEN (IF pol[1] \in {"and", "or"} /\ (pol[2][1] \in {"and", "or"} \/ pol[3][1] \in {"and", "or"}) /\ av.height = 9 THEN 0 ELSE 1) ELSE ((Len(pol) * 3 + av.height + av.seq * 5 + Cardinality(av.sigs)) % EmitMod)
+\* an `or` somewhere inside whose two branches are both false (the satisfier hides both: Hiding::case with two hidden children)
+RECURSIVE DeadOr(_, _)
+DeadOr(p, a) == /\ p[1] \in {"and", "or"}
+                /\ \/ (p[1] = "or" /\ ~Holds(p[2], a) /\ ~Holds(p[3], a))
+                   \/ DeadOr(p[2], a) \/ DeadOr(p[3], a)
+Hh == IF av.nest THEN (IF pol[1] \in {"and", "or"} /\ (pol[2][1] \in {"and", "or"} \/ pol[3][1] \in {"and", "or"}) /\ (av.height = 9 \/ (Holds(pol, av) /\ DeadOr(pol, av))) THEN 0 ELSE 1) ELSE ((Len(pol) * 3 + av.height + av.seq * 5 + Cardinality(av.sigs)) % EmitMod)
 Emit == (Done /\ Hh = 0) =>
   PrintT(<<"CASE", ToJson([pol |-> pol, sigs |-> [k \in 1..2 |-> k \in av.sigs], pres |-> [k \in 1..1 |-> k \in av.pres],
                            height |-> av.height, seq |-> av.seq, holds |-> Holds(pol, av),
